@@ -180,6 +180,48 @@ def tally (b : BucketResult) : List Nat :=
   ++ row done (fun r => r.wks.2.1 == 0) (bucketAll (·.wks.2.1))
   ++ row done (fun r => r.wks.2.2 == 0) (bucketAll (·.wks.2.2))
 
+/-! ## From `tahoe.cfg` to the crawler's configuration
+(`client.py _Client.get_anonymous_storage_server` + `LeaseCheckingCrawler.__init__`)
+
+The `[storage] expire.*` settings after *value* parsing: booleans by configparser, the duration by
+`parse_duration`, the date by `parse_date` (midnight UTC of the day) - the value parsers are C48's.
+`none` = the key is absent.  Transcribed: `expire.enabled` defaults to False; `expire.mode` is
+required when enabled, else defaults to "age"; `expire.cutoff_date` is read (and required) only in
+"cutoff-date" mode; `expire.immutable` / `expire.mutable` default to True and select the tuple of
+share-type names; the crawler keeps the override only in age mode and rejects any other mode name.
+An override given together with cutoff-date mode, or a cutoff date given in age mode, is silently
+ignored (the documentation says "rejected"; the code does not). -/
+
+structure Settings where
+  enabled : Option Bool
+  mode : Option String
+  overrideDuration : Option Int
+  cutoffDate : Option Int
+  immutable : Option Bool
+  mutable : Option Bool
+  deriving DecidableEq, Repr
+
+inductive ConfigErr where
+  | missingMode      -- MissingConfigEntry: expire.enabled without expire.mode
+  | missingCutoff    -- MissingConfigEntry: cutoff-date mode without expire.cutoff_date
+  | badMode          -- ValueError("GC mode … must be 'age' or 'cutoff-date'")
+  deriving DecidableEq, Repr
+
+def configFromSettings (s : Settings) : Except ConfigErr Config :=
+  let en := s.enabled.getD false
+  let imm := s.immutable.getD true
+  let mu := s.mutable.getD true
+  match (if en then s.mode else some (s.mode.getD "age")) with
+  | none => .error .missingMode
+  | some m =>
+    if m = "cutoff-date" then
+      match s.cutoffDate with
+      | none => .error .missingCutoff
+      | some d => .ok { enabled := en, mode := .cutoff d, expImmutable := imm, expMutable := mu }
+    else if m = "age" then
+      .ok { enabled := en, mode := .age s.overrideDuration, expImmutable := imm, expMutable := mu }
+    else .error .badMode
+
 /-! ## The defect in the tree as shipped (age mode, no override) -/
 
 /-- With `age_limit = original_expiration_time` a lease that expired 369 days ago
@@ -190,5 +232,34 @@ example :
     let l : Lease := { cancel := 1, expiry := t0 + 31 * 86400 }
     modeExpiredShipped cfg (t0 + 400 * 86400) l = false ∧ modeExpired cfg (t0 + 400 * 86400) l = true := by
   decide
+
+/-! ## Vocabulary of the C26 statements -/
+
+/-- 31 days, the documented lease duration (docs/garbage-collection.rst). -/
+def leaseDuration : Int := 31 * 24 * 60 * 60
+
+/-- The create/renew timestamp of a lease: the server grants `expiry = renewal + 31 d`. -/
+def lastRenewal (l : Lease) : Int := l.expiry - leaseDuration
+
+/-- The DOCUMENTED expiry predicate (docs/garbage-collection.rst, the property statement):
+    age mode: `renewal + duration < now`, or `renewal + override < now` with an override;
+    cutoff mode: `renewal < cutoff`. -/
+def DocExpired (cfg : Config) (now : Int) (l : Lease) : Prop :=
+  match cfg.mode with
+  | .age none => lastRenewal l + leaseDuration < now
+  | .age (some o) => lastRenewal l + o < now
+  | .cutoff d => lastRenewal l < d
+
+instance (cfg : Config) (now : Int) (l : Lease) : Decidable (DocExpired cfg now l) := by
+  unfold DocExpired; cases cfg.mode with
+  | age ov => cases ov <;> exact inferInstance
+  | cutoff d => exact inferInstance
+
+/-- Cancel secrets of the leases of a share are pairwise distinct. -/
+def DistinctSecrets (ls : List Lease) : Prop := (ls.map (·.cancel)).Nodup
+
+/-- The shares the full theorem is about: at least one lease, pairwise distinct cancel secrets.
+    This excludes exactly the inputs of the three open findings (shared secret x2, lease-less share). -/
+def WellFormedLeases (ls : List Lease) : Prop := ls ≠ [] ∧ DistinctSecrets ls
 
 end Tahoe.Storage.Expire
